@@ -23,6 +23,13 @@ Notation open_all_C02 I :=
 Notation explain_all_C02 I :=
   (explain_cell (scan_machine I) auto1 (sc_eqb I) scres_eqb all_bytes (fun x => sc_after I (path1 x)) (fun _ _ => false) 4).
 
+Definition focus1 (c : ctx1 * N) : list N :=
+  [0xE0; 0xE1; snd c; (snd c + 128) mod 256] ++ path1 (fst c) ++ [0x1E; 0x2A; 0xAA; 0x1D; 0x9D; 0xFA].
+Notation explain_focus_C02 I c :=
+  (explain_cell (scan_machine I) auto1 (sc_eqb I) scres_eqb (focus1 c) (fun x => sc_after I (path1 x)) (fun _ _ => false) 5 c).
+Notation explain_wide_C02 I c :=
+  (explain_cell (scan_machine I) auto1 (sc_eqb I) scres_eqb all_bytes (fun x => sc_after I (path1 x)) (fun _ _ => false) 2 c).
+
 (* At every position of every byte stream the decoder returns what the reference automaton returns,
    unless the cell (context, byte) at that position is a listed known finding; it never panics and
    stays in step with the automaton's context (so later bytes are unaffected by an excepted cell). *)
